@@ -14,9 +14,9 @@ import (
 
 func init() {
 	ev.Register(&ev.Check{
-		ID:    "C10",
-		Level: "exploration",
-		Rule: "all strings <= 7 (quick 6) chars over {-,0,1,5,9,.,e,E,+}: the internal Number (via verif hook) must parse exactly the RFC 8259 numerals and agree with math/big on String, fractional length; all ordered pairs of numerals <= 4 (thorough 5) chars and every numeral against a probe set are compared with exact Cmp; API level (no hook): schemas `E // {min|max A [exclusive]}`, `{type:\"decimal\", precision:p}` and integer example x all numerals <= 5 (6) chars as documents, verdict == exact reference; structured long-numeral family (digit blocks up to 60 digits x exponents up to +-400) all pairs. Non-trivial = a distinct (rule, numeral) or (numeral, numeral) pair on which both reference and library were evaluated.",
+		ID:             "C10",
+		Level:          "exploration",
+		Rule:           "all strings <= 7 (quick 6) chars over {-,0,1,5,9,.,e,E,+}: the internal Number (via verif hook) must parse exactly the RFC 8259 numerals and agree with math/big on String, fractional length; all ordered pairs of numerals <= 4 (thorough 5) chars and every numeral against a probe set are compared with exact Cmp; API level (no hook): schemas `E // {min|max A [exclusive]}`, `{type:\"decimal\", precision:p}` and integer example x all numerals <= 5 (6) chars as documents, verdict == exact reference; structured long-numeral family (digit blocks up to 60 digits x exponents up to +-400) all pairs. Non-trivial = a distinct (rule, numeral) or (numeral, numeral) pair on which both reference and library were evaluated.",
 		Run:            run,
 		Replay:         replay,
 		QuickBudget:    80 * time.Second,
@@ -195,7 +195,10 @@ func forms() []ruleForm {
 			func(a string, d decimal.Dec, _ string) (bool, bool) { return d.Cmp(dec(a)) <= 0, true }},
 		{"precision", func() []string { return []string{"1", "2", "3"} }, "1",
 			func(a string) string { return "0.1 // {type: \"decimal\", precision: " + a + "}" },
-			func(a string, d decimal.Dec, _ string) (bool, bool) { p := int(a[0] - '0'); return d.FracLen() <= p, true }},
+			func(a string, d decimal.Dec, _ string) (bool, bool) {
+				p := int(a[0] - '0')
+				return d.FracLen() <= p, true
+			}},
 	}
 }
 
